@@ -290,9 +290,13 @@ def cache_history_level(ctx):
 PROPFIND_CUP = ('<?xml version="1.0"?><D:propfind xmlns:D="DAV:"><D:prop><D:current-user-principal/></D:prop></D:propfind>')
 
 
+MATRIX = [(b, r, x, h) for b in ("remote_user", "http_x_remote_user", "none", "htpasswd") for r in ("", "mallory")
+          for x in ("", "bob") for h in ("basic", "absent")] * 2
+
+
 def gate_level(ctx):
     rng = ctx.rng("gate")
-    n = ctx.n(150, 6000)
+    n = ctx.n(400, 8000)
     f = tempfile.NamedTemporaryFile("w", suffix=".htpasswd", delete=False, encoding="utf-8")
     lines = ["alice:secret", "bob:p:w", "carol:x", "u/x:slash", "..:dots"]
     f.write("\n".join(lines) + "\n")
@@ -301,6 +305,10 @@ def gate_level(ctx):
     try:
         for i in range(n):
             backend = rng.choice(["none", "denyall", "htpasswd", "htpasswd", "remote_user", "http_x_remote_user"])
+            # identity-source matrix first: each back-end with its own source of identity empty / set and the other sources set
+            forced = MATRIX[i] if i < len(MATRIX) else None
+            if forced:
+                backend = forced[0]
             lc, uc = rng.choice([(False, False), (False, False), (True, False), (False, True)])
             strip = rng.random() < 0.3
             conf = {"auth": {"type": backend, "htpasswd_filename": f.name, "htpasswd_encryption": "plain", "lc_username": str(lc),
@@ -310,6 +318,8 @@ def gate_level(ctx):
                 hk = rng.choice(["absent", "basic", "basic", "basic", "malformed", "other"])
                 login = rng.choice(["alice", "Alice", "ALICE", "bob", "carol@ex.org", "nobody", "u/x", "..", "alice@ex.org", ""])
                 pw = rng.choice(["secret", "p:w", "x", "wrong", "", "slash", "dots"])
+                if forced:
+                    hk, login, pw = forced[3], "alice", "secret"
                 env = {}
                 if hk == "basic":
                     env["HTTP_AUTHORIZATION"] = "Basic " + base64.b64encode(("%s:%s" % (login, pw)).encode()).decode()
@@ -320,12 +330,18 @@ def gate_level(ctx):
                     env["HTTP_AUTHORIZATION"] = "Bearer abcdef"
                 ru = rng.choice(["", "", "mallory", "alice", "u/x"])
                 xru = rng.choice(["", "", "mallory", "bob"])
+                if forced:
+                    ru, xru = forced[1], forced[2]
+
                 if ru:
                     env["REMOTE_USER"] = ru
                 if xru:
                     env["HTTP_X_REMOTE_USER"] = xru
-                method, path, body = rng.choice([("PROPFIND", "/", PROPFIND_CUP), ("PUT", "/alice/x.ics", "junk"), ("MKCALENDAR", "/mallory/c/", None),
+                method, path, body = rng.choice([("PROPFIND", "/", PROPFIND_CUP), ("PROPFIND", "/", PROPFIND_CUP), ("PUT", "/alice/x.ics", "junk"),
+                                                 ("MKCALENDAR", "/mallory/c/", None), ("MKCALENDAR", "/alice/c%d/" % i, None),
                                                  ("GET", "/alice/", None), ("DELETE", "/bob/", None)])
+                if forced:
+                    method, path, body = ("PROPFIND", "/", PROPFIND_CUP) if i < len(MATRIX) // 2 else ("MKCALENDAR", "/alice/m%d/" % i, None)
                 before = disk_snapshot(app.folder)
                 st, hd, text = app.request(method, path, body, **env)
                 after = disk_snapshot(app.folder)
@@ -389,6 +405,10 @@ def gate_level(ctx):
                         served = ""
                     if euser and served != euser:
                         ctx.violation("request served as %r, the back-end authenticated %r" % (served, euser), case, euser, served)
+                    if not euser and served:
+                        ctx.violation("request served as %r although the configured back-end was given no identity (its source is %s)" % (
+                            served, {"remote_user": "REMOTE_USER", "http_x_remote_user": "X-Remote-User"}.get(backend, "the Authorization header")),
+                            case, "", served)
                 if expect == "handler" and not euser and st < 300 and method in ("PUT", "MKCALENDAR", "DELETE"):
                     ctx.violation("anonymous request modified data (status %d)" % st, case)
                 if ctx.driver:
